@@ -323,7 +323,8 @@ def bfs(ctx, dim, k, K):
                 ctx.case(cid, trivial=(gn == 'I|t=0'))
                 check(ctx, cid, dict(dim=dim, g=gn.split('|')[0], t=gn.split('t=')[1], depth=0), st)
     ntr = 0
-    gsub = gens if tier != 'quick' else [g for g in gens if g[0] in {x[0] for x in alph.subset(G, 6, 3)}]
+    # composition letters: a landmark-preserving subset (all generators are still roots); bounds the branching factor
+    gsub = [g for g in gens if g[0] in {x[0] for x in alph.subset(G, 6 if tier == 'quick' else 10, 3 if tier == 'quick' else 5)}]
     for d in range(depth):
         nxt = []
         for sn, st in frontier:
